@@ -427,6 +427,42 @@ def ret_key(case):
     return 'retention'
 
 
+# ---------------------------------------------------------------- the environment of the process is not a binding
+
+ENV_FORMULAS = ['DATE(2020,1,1)+1', 'N(DATE(2019,7,1))', 'DATEVALUE("2023-06-23")', 'HOUR(45100)', 'HOUR(45100.75)&":"&MINUTE(45100.76)', 'DAYS("2023-06-23","2023-01-01")', 'YEAR(DATE(2023,7,1)+184)', '"20 Nov 2019"+1', 'YEAR("2019-11-20")',
+                'DATE(2019,3,31)-DATE(2019,3,30)', 'DATE(2019,10,27)-DATE(2019,10,26)', 'EDATE(DATE(2019,3,31),-1)', 'WEEKDAY(DATE(2019,3,10))', 'DATE(1990,4,1)=32964', 'DATEDIF(DATE(2019,1,31),DATE(2019,10,27),"d")', 'TIME(1,30,0)+DATE(2019,3,31)',
+                '1+1', 'TEXT(1234.5,"#,##0.00")', 'TEXT(0.25,"0%")', 'UPPER("stra\u00dfe")&LOWER("\u0130")', 'SUM(1,2)&"x"', '"b">"a"', '"\u00e4">"z"', '"a"<"B"', 'ROUND(2.5,0)&ROUND(0.125,2)', '1/3&""', '1e21&""', 'VALUE("1,5")', 'VALUE("1.5")',
+                'FIXED(1234.567)', 'DOLLAR(1234.567)', 'CONCATENATE(1.5,TRUE)', 'MATCH("b*",{"Alpha","BETA","bravo"},0)', 'COUNTIF({"a","B","b"},"b")', 'PROPER("hello wORLD")', 'LEN("\U0001f600")', 'CODE("\u00e9")', 'CHAR(233)',
+                'SUM({1,2;3,4})', 'IF(1<2,"x","y")', '1+', 'nosuch', '2^0.5', 'SQRT(2)', 'EXP(1)', 'FACT(20)', 'DEC2HEX(-1)', 'ROMAN(1994)', 'MOD(-7,3)', 'v_d+1', 'N(v_d)', 'v_s&"!"']
+ENVIRONMENTS = [{'TZ': 'CET-1CEST,M3.5.0,M10.5.0/3'}, {'TZ': 'EST5EDT,M3.2.0,M11.1.0'}, {'TZ': 'LHST-10:30LHDT-11,M10.1.0,M4.1.0'}, {'TZ': 'IST-5:30'}, {'PYTHONWARNINGS': 'error'}, {'PYTHONWARNINGS': 'error::DeprecationWarning'},
+                {'LC_ALL': 'POSIX', 'LANG': 'POSIX'}, {'LC_ALL': 'C.UTF-8', 'LANG': 'C.UTF-8'}, {'PYTHONHASHSEED': '12345'}, {'PYTHONHASHSEED': '1'}, {'PYTHONDEVMODE': '1'}, {'PYTHONUTF8': '0', 'LC_ALL': 'C'}, {'PYTHONUTF8': '1'},
+                {'PYTHONINTMAXSTRDIGITS': '640'}, {'PYTHONMALLOC': 'debug'}, {'TZ': 'Pacific/Apia'}, {'TZ': 'America/St_Johns', 'PYTHONWARNINGS': 'error'}]
+
+
+def enum_env(tier, shard, nshards):
+    for i, e in enumerate(ENVIRONMENTS):
+        if i % nshards == shard:
+            yield {'env': sorted(e.items()), 'debug': i % 2 == 1}
+
+
+def check_env(case):
+    """The same formulas in a brand-new interpreter under TZ=UTC and under another process environment (time zone given as a POSIX rule, so that no zone
+    database is needed; warnings turned into errors; locale variables; hash seed; development mode; ...): every outcome is the same.  -OO is not among them:
+    PLY reads the grammar from docstrings, which -OO removes (a limit of the parser generator, recorded in DESIGN.md)."""
+    from ..freshproc import run_fresh
+    env = dict(case['env'])
+    if env.get('TZ', '').count('/') and not os.path.exists('/usr/share/zoneinfo/' + env['TZ']):
+        raise Skip('zone-data-missing')
+    base = run_fresh(ENV_FORMULAS, debug=case['debug'], env_extra={'TZ': 'UTC'})
+    try:
+        other = run_fresh(ENV_FORMULAS, debug=case['debug'], env_extra=env)
+    except RuntimeError as e:
+        raise Violation('in a process started with %s the library cannot evaluate at all (%s); with TZ=UTC alone it can' % (env, str(e)[-300:]), 'no outcome', 'the outcomes of the plain process')
+    for f, a, b in zip(ENV_FORMULAS, base, other):
+        if a != b:
+            raise Violation('in a process started with %s, %s gives %s; in a plain process (TZ=UTC) it gives %s' % (env, f, b, a), b, a)
+
+
 # ---------------------------------------------------------------- evaluation order in a brand-new interpreter
 ORD_FAMILIES = [
     ['TRUE', '1', '1.0', 'v_t', 'v_i', 'v_f', '(2>1)', '1E0', '"1"', '"1.0"', 'v_s', 'v_e', 'DATE(1899,12,31)', '"TRUE"'],
@@ -435,7 +471,7 @@ ORD_FAMILIES = [
     ['v_big', 'v_bigf', '9007199254740992', '9007199254740992.0', '9007199254740993', '"9007199254740992"'],
     ['100', '100.0', '1E2', '"100"', '"1E2"', '0.5', '"0.5"', '.5'],
 ]
-ORD_HUGE = ['LEN(FACT(2000))', 'FACT(2000)&""', 'CONCATENATE(FACT(2000))', 'UPPER(FACT(1800))', 'LEN(FACT(2000)&"")', 'LOWER(2^20000)', 'LEN(10^5000)', '(10^5000)&"x"', 'TEXTJOIN("",TRUE,FACT(2000))', 'PROPER(FACT(1900))', 'CLEAN(FACT(2100))',
+ORD_HUGE = ['LEN(FACTDOUBLE(600))', 'LEN(FACTDOUBLE(1200))', 'LEN(FACTDOUBLE(1800))', 'LEN(FACTDOUBLE(1201))', 'LEN(FACT(900))', 'LEN(FACT(1500))', 'LEN(FACT(2000))', 'FACT(2000)&""', 'CONCATENATE(FACT(2000))', 'UPPER(FACT(1800))', 'LEN(FACT(2000)&"")', 'LOWER(2^20000)', 'LEN(10^5000)', '(10^5000)&"x"', 'TEXTJOIN("",TRUE,FACT(2000))', 'PROPER(FACT(1900))', 'CLEAN(FACT(2100))',
             'LEN(%s&"")' % ('1' * 5000), '%s=%s1' % ('1' * 5000, '1' * 5000), 'LEFT(FACT(2000),3)', 'VALUE(FACT(2000)&"")>0', 'T(FACT(2000))', 'EXACT(FACT(2000),1)']       # integers beyond the interpreter's 4300-digit int/str limit
 ORD_ATOMS = sorted(set(x for fam in ORD_FAMILIES for x in fam))
 ORD_WRAPS = ['(%s)&""', 'TYPE(%s)', '%s', 'ISNUMBER(%s)&ISTEXT(%s)&ISLOGICAL(%s)', 'N(%s)&""', 'T(%s)&"."', 'SUM(%s)&""', 'ABS(%s)&""', '(%s)*1&""', 'IF(%s,"y","n")', 'EXACT(%s,1)', 'MAX(%s,0)&""', '(-(%s))&""', 'TEXTJOIN("/",TRUE,%s)']
@@ -515,6 +551,10 @@ LAWS = [
         nontrivial=lambda c: len(c['formulas']) >= 2,
         rule='1-4 of 75 formulas that push host lists (variable values flat and nested, a listener-served range and cell value, arguments handed to and a list returned by custom functions) through array arithmetic, array literals, omitted-slot calls, '
              'every aggregate, LARGE/MEDIAN/INDEX/MATCH/TEXTJOIN/CONCATENATE/SUMIFS...: afterwards every host list is deep-equal to its copy and consists of the very same list objects'),
+    Law('process_environment', check_env, enumerate=enum_env, shards=(16, 16), guard=400, key=lambda c: 'process-environment',
+        rule='52 formulas (dates and serials, text of dates, number formats, case mapping, text order, rounding, wildcard lookups, literals, failing formulas, host date and text variables) are evaluated in a brand-new interpreter '
+             'under TZ=UTC and under each of 17 other process environments (four time zones given as POSIX rules and two by name, warnings turned into errors, POSIX / C.UTF-8 locale variables, other hash seeds, development mode, UTF-8 mode off and on, '
+             'a low integer-digit limit, the debug allocator): every outcome is the same, and the library must be usable at all'),
     Law('order_independence', check_order, strategy=order_case, quick=170, thorough=12000, shards=(16, 16), key=lambda c: '', guard=400,
         classes=lambda c: ('debug:%s' % c['debug'], 'n%d' % min(len(c['formulas']), 4)), required=('debug:True', 'debug:False', 'n2', 'n4'),
         nontrivial=lambda c: len(c['formulas']) >= 3,
